@@ -66,7 +66,12 @@ func c01Stream(r *hx.Rand, tier string, n int, w *bufio.Writer) map[string]int {
 	keys := hx.Keys()
 	ring := []*hx.Key{keys[0], keys[2], keys[5]} // trusted: RSA, P-256, Ed25519
 	ks := &staticKeySet{keys: ring}
-	const issuer, cid = "https://op.example", "rp-client"
+	// the same ring as a published key set (relying-party mode: remote key set over the fake provider's JWKS endpoint)
+	ringPub := []pubKey{{k: keys[0], kid: "k-rsa", use: "sig"}, {k: keys[2], kid: "k-ec", use: "sig"}, {k: keys[5], kid: "k-ed", use: "sig"}}
+	kidOf := map[int]string{keys[0].No: "k-rsa", keys[2].No: "k-ec", keys[5].No: "k-ed"}
+	op := newC01OP(ringPub)
+	defer op.srv.Close()
+	const bareIssuer, cid = "https://op.example", "rp-client"
 	accessTokens := []string{"at-AAAA", "at-BBBB"}
 	// reverse table real at_hash -> symbolic digest
 	sym := map[string]string{}
@@ -86,6 +91,20 @@ func c01Stream(r *hx.Rand, tier string, n int, w *bufio.Writer) map[string]int {
 		waitClearOfSecondEdge()
 		now := time.Now()
 		sec := now.Unix()
+		// ---- how the verifier comes about: hand-built (rp.NewIDTokenVerifier) or handed out by a real relying party
+		mode := "bare"
+		oauthOnly := false // relying-party mode with rp.NewRelyingPartyOAuth: no discovery, no issuer, ID tokens are not looked at
+		switch m := r.Intn(100); {
+		case m >= 94:
+			mode, oauthOnly = "rp", true
+		case m >= 58:
+			mode = "rp"
+		}
+		stats["mode-"+mode]++
+		issuer := bareIssuer
+		if mode == "rp" {
+			issuer = op.srv.URL
+		}
 		// ---- verifier configuration
 		offset := hx.Pick(r, time.Second, time.Second, 0, -time.Second, 90*time.Second)
 		maxIAT := hx.Pick(r, 0, 0, 10*time.Second, time.Hour)
@@ -112,31 +131,66 @@ func c01Stream(r *hx.Rand, tier string, n int, w *bufio.Writer) map[string]int {
 		case 8:
 			algs = hx.Pick(r, []string{"ES256"}, []string{"RS384", "PS256"}, []string{"HS256", "none"})
 		}
-		opts := []rp.VerifierOption{rp.WithIssuedAtOffset(offset), rp.WithIssuedAtMaxAge(maxIAT), rp.WithAuthTimeMaxAge(maxAge)}
-		if algs != nil {
-			opts = append(opts, rp.WithSupportedSigningAlgorithms(algs...))
+		// the verifier options the case is about (relying-party mode: an option that only restates the default is sometimes left out)
+		keep := func(isDefault bool) bool { return mode == "bare" || !isDefault || r.Chance(50) }
+		var want []c01VOpt
+		if keep(offset == time.Second) {
+			want = append(want, c01VOpt{kind: "off", dur: offset})
 		}
-		switch nonceMode {
-		case "set":
-			opts = append(opts, rp.WithNonce(func(context.Context) string { return "n-123" }))
-		case "nil":
-			opts = append(opts, rp.WithNonce(nil))
+		if keep(maxIAT == 0) {
+			want = append(want, c01VOpt{kind: "maxiat", dur: maxIAT})
+		}
+		if keep(maxAge == 0) {
+			want = append(want, c01VOpt{kind: "maxage", dur: maxAge})
+		}
+		if algs != nil {
+			want = append(want, c01VOpt{kind: "algs", algs: algs})
+		}
+		if nonceMode != "default" {
+			want = append(want, c01VOpt{kind: "nonce", mode: nonceMode})
 		}
 		if acrMode == "list" {
-			opts = append(opts, rp.WithACRVerifier(oidc.DefaultACRVerifier([]string{"gold", "silver"})))
+			want = append(want, c01VOpt{kind: "acr", mode: "list"})
 		}
-		v := rp.NewIDTokenVerifier(issuer, cid, ks, opts...)
-
-		withAT := r.Chance(50)
+		if mode == "rp" && r.Chance(12) {
+			want = nil // a relying party without any verifier option (library defaults; possibly the discovered algorithms)
+		}
+		var v *rp.IDTokenVerifier
+		var plan c01RPPlan
+		var party rp.RelyingParty
+		var cerr error
+		eff := c01Effective(want)
+		path := "vid"
+		if r.Chance(50) {
+			path = "vtok"
+		}
+		if mode == "bare" {
+			var opts []rp.VerifierOption
+			for _, o := range want {
+				opts = append(opts, o.option())
+			}
+			v = rp.NewIDTokenVerifier(issuer, cid, ks, opts...)
+		} else {
+			plan = c01PlanRP(r, want, alg, oauthOnly, stats)
+			eff = plan.eff
+			path = hx.Pick(r, "vid", "vtok", "code", "refresh")
+			if oauthOnly {
+				path = hx.Pick(r, "code", "refresh")
+				stats["rp-oauth-only"]++
+			}
+			party, cerr = plan.build(context.Background(), op, cid)
+			stats["rp-path-"+path]++
+		}
+		withAT := path != "vid"
 		at := accessTokens[0]
-		offS := int64(offset / time.Second)
+		offS := int64(eff.offset / time.Second)
 		claims := map[string]any{
 			"iss": issuer, "sub": "user-1", "aud": []string{cid}, "exp": sec + 600, "iat": sec - 5, "auth_time": sec - 20,
 		}
-		if nonceMode == "set" {
+		if eff.nonce == "set" {
 			claims["nonce"] = "n-123"
 		}
-		if acrMode == "list" {
+		if eff.acr {
 			claims["acr"] = "gold"
 		}
 		if withAT && r.Chance(70) {
@@ -144,9 +198,10 @@ func c01Stream(r *hx.Rand, tier string, n int, w *bufio.Writer) map[string]int {
 				claims["at_hash"] = h
 			}
 		}
+		untrustedKid := ""
 		nmut := hx.Pick(r, 0, 1, 1, 1, 2, 2, 3)
 		for m := 0; m < nmut; m++ {
-			dim := r.Intn(12)
+			dim := r.Intn(13)
 			stats[fmt.Sprintf("mut-dim-%02d", dim)]++
 			switch dim {
 			case 0:
@@ -157,6 +212,10 @@ func c01Stream(r *hx.Rand, tier string, n int, w *bufio.Writer) map[string]int {
 				claims["aud"] = hx.Pick[any](r, []string{}, []string{"x"}, []string{cid, "x"}, []string{"x", cid, "y"}, cid, "x", []string{cid, cid})
 			case 3:
 				claims["azp"] = hx.Pick(r, cid, "x", "")
+				if r.Chance(30) {
+					// several audiences, the azp value possibly ANOTHER member of them
+					claims["aud"] = hx.Pick(r, []string{cid, "x", "y"}, []string{"x", cid})
+				}
 			case 4:
 				claims["exp"] = sec + offS + int64(hx.Pick(r, -2, -1, 0, 1, 2, 3))
 				if r.Chance(15) {
@@ -168,8 +227,8 @@ func c01Stream(r *hx.Rand, tier string, n int, w *bufio.Writer) map[string]int {
 					delete(claims, "iat")
 				}
 			case 6:
-				if maxIAT > 0 {
-					claims["iat"] = sec - int64(maxIAT/time.Second) + int64(hx.Pick(r, -2, -1, 0, 1, 2))
+				if eff.maxIAT > 0 {
+					claims["iat"] = sec - int64(eff.maxIAT/time.Second) + int64(hx.Pick(r, -2, -1, 0, 1, 2))
 				} else {
 					claims["iat"] = sec - 100000
 				}
@@ -181,8 +240,8 @@ func c01Stream(r *hx.Rand, tier string, n int, w *bufio.Writer) map[string]int {
 			case 8:
 				claims["acr"] = hx.Pick(r, "gold", "silver", "bronze", "")
 			case 9:
-				if maxAge > 0 {
-					claims["auth_time"] = sec - int64(maxAge/time.Second) + int64(hx.Pick(r, -2, -1, 0, 1, 2))
+				if eff.maxAge > 0 {
+					claims["auth_time"] = sec - int64(eff.maxAge/time.Second) + int64(hx.Pick(r, -2, -1, 0, 1, 2))
 				} else {
 					claims["auth_time"] = sec - 100000
 				}
@@ -197,18 +256,45 @@ func c01Stream(r *hx.Rand, tier string, n int, w *bufio.Writer) map[string]int {
 				}
 				// "short": only the first 128 bits of the digest - wrong for SHA-384 / SHA-512
 				claims["at_hash"] = hx.Pick(r, other, wrongAlg, hx.RefClaimHashShort(at, alg), "garbage", "")
+			case 12:
+				// claims a verifier must NOT read as something else: `client_id` (RFC 9068 style) next to / instead of azp, with one
+				// or several audiences; a `nbf` in the future (not a condition of ID Token validation)
+				claims["client_id"] = hx.Pick(r, cid, "x", "other-client")
+				switch r.Intn(4) {
+				case 0:
+					claims["aud"] = []string{cid, "x"}
+					delete(claims, "azp")
+				case 1:
+					delete(claims, "azp")
+				case 2:
+					claims["nbf"] = sec + 3600
+				}
 			case 11:
 				key = hx.Pick(r, keys[1], keys[3], keys[6]) // untrusted signer
 				alg = key.Algs[0]
+				// (published key set) it claims the key id of the trusted key of its type, or one nobody published
+				untrustedKid = hx.Pick(r, map[string]string{"RSA": "k-rsa", "EC": "k-ec", "OKP": "k-ed"}[key.Kty], "k-unknown")
+			}
+		}
+		kid := ""
+		if mode == "rp" {
+			kid = kidOf[key.No]
+			if kid == "" {
+				kid = untrustedKid
 			}
 		}
 		payload, _ := json.Marshal(claims)
-		tok, err := hx.Sign(key, alg, "", payload)
+		tok, err := hx.Sign(key, alg, kid, payload)
 		if err != nil {
 			stats["sign-error"]++
 			continue
 		}
-		dec, decOK := hx.DecodeIDClaims(payload)
+		_, decOK := hx.DecodeIDClaims(payload)
+		// (code exchange) now and then the token response carries no id_token at all
+		missing := mode == "rp" && path == "code" && r.Chance(4)
+		if missing {
+			tok = ""
+		}
 
 		// ---- run the real verifier, bracketed by t0 / t1
 		var got *oidc.IDTokenClaims
@@ -221,9 +307,14 @@ func c01Stream(r *hx.Rand, tier string, n int, w *bufio.Writer) map[string]int {
 					panicked = true
 				}
 			}()
-			if withAT {
+			switch {
+			case mode == "rp" && cerr != nil:
+				verr = cerr
+			case mode == "rp":
+				got, verr = c01RunRP(context.Background(), party, op, path, at, tok, i)
+			case withAT:
 				got, verr = rp.VerifyTokens[*oidc.IDTokenClaims](context.Background(), at, tok, v)
-			} else {
+			default:
 				got, verr = rp.VerifyIDToken[*oidc.IDTokenClaims](context.Background(), tok, v)
 			}
 		}()
@@ -233,31 +324,55 @@ func c01Stream(r *hx.Rand, tier string, n int, w *bufio.Writer) map[string]int {
 		if withAT {
 			l.S("at", at)
 		}
-		l.S("v.iss", issuer).S("v.cid", cid).I("v.off", int64(offset)).I("v.maxiat", int64(maxIAT)).I("v.maxage", int64(maxAge)).L("v.algs", algs)
-		switch nonceMode {
+		vIssuer := issuer
+		if oauthOnly {
+			vIssuer = "" // NewRelyingPartyOAuth knows no issuer
+		}
+		l.S("v.iss", vIssuer).S("v.cid", cid).I("v.off", int64(eff.offset)).I("v.maxiat", int64(eff.maxIAT)).I("v.maxage", int64(eff.maxAge)).L("v.algs", eff.algs)
+		switch eff.nonce {
 		case "default":
 			l.S("v.nonce", "")
 		case "set":
 			l.S("v.nonce", "n-123")
 		}
-		if acrMode == "list" {
+		if eff.acr {
 			l.L("v.acr", []string{"gold", "silver"})
 		}
-		ksLine(l, "static", ring, nil, nil)
-		l.I("t.segs", 3).I("t.mid", 1).B("t.json", decOK)
-		if decOK {
-			dec.AccessTokenHash = symHash(dec.AccessTokenHash)
-			hx.ClaimsKV(l, "c.", dec)
+		if oauthOnly {
+			ksLinePub(l, "published", nil) // remote key set over the empty JWKS URL
+			plan.line(l, op, path)
+		} else if mode == "rp" {
+			ksLinePub(l, "published", ringPub)
+			plan.line(l, op, path)
+		} else {
+			ksLine(l, "static", ring, nil, nil)
 		}
-		l.B("t.jws", true).I("j.bytes", 1).I("j.n", 1)
-		l.S("s0.alg", alg).S("s0.kid", "").I("s0.signer", int64(key.No)).S("s0.salg", alg).I("s0.sbytes", 1).S("s0.shalg", alg).S("s0.shkid", "")
+		if missing {
+			l.I("t.segs", 0).B("t.json", false).B("t.jws", false).B("tr.noid", true)
+		} else {
+			l.I("t.segs", 3).I("t.mid", 1).B("t.json", decOK)
+			if decOK {
+				// the claims of the payload in the harness's OWN reading of the JSON object it signed (registered claim names of
+				// OIDC Core 2), not what the library's struct tags / getters make of it
+				c01ClaimsKV(l, "c.", claims, symHash)
+			}
+			l.B("t.jws", true).I("j.bytes", 1).I("j.n", 1)
+			l.S("s0.alg", alg).S("s0.kid", kid).I("s0.signer", int64(key.No)).S("s0.salg", alg).I("s0.sbytes", 1).S("s0.shalg", alg).S("s0.shkid", kid)
+		}
 		switch {
 		case panicked:
 			l.S("obs", "panic")
 			stats["obs-panic"]++
+		case mode == "rp" && cerr != nil:
+			l.S("obs", "err").S("o.err", "construct")
+			stats["obs-construct-error"]++
+		case oauthOnly && verr == rp.ErrMissingIDToken && got == nil:
+			// the tokens came back WITHOUT ID Token claims (c01RunRP reports that as ErrMissingIDToken on the refresh path)
+			l.S("obs", "noclaims")
+			stats["obs-noclaims"]++
 		case verr != nil:
-			l.S("obs", "err").S("o.err", hx.ErrName(verr))
-			stats["obs-"+hx.ErrName(verr)]++
+			l.S("obs", "err").S("o.err", c01ErrName(verr))
+			stats["obs-"+c01ErrName(verr)]++
 		default:
 			l.S("obs", "ok")
 			cp := *got
@@ -268,4 +383,34 @@ func c01Stream(r *hx.Rand, tier string, n int, w *bufio.Writer) map[string]int {
 		fmt.Fprintln(w, l.String())
 	}
 	return stats
+}
+
+// c01ClaimsKV writes the registered claims of the JSON object `m` (as it was signed) under prefix p, with the keys of hx.ClaimsKV
+func c01ClaimsKV(l *hx.Line, p string, m map[string]any, symHash func(string) string) {
+	str := func(k string) string {
+		if v, ok := m[k].(string); ok {
+			return v
+		}
+		return ""
+	}
+	num := func(k string) int64 {
+		switch v := m[k].(type) {
+		case int64:
+			return v
+		case int:
+			return int64(v)
+		}
+		return 0
+	}
+	var aud []string
+	switch v := m["aud"].(type) {
+	case string:
+		aud = []string{v}
+	case []string:
+		aud = v
+	}
+	l.S(p+"iss", str("iss")).S(p+"sub", str("sub")).L(p+"aud", aud).S(p+"azp", str("azp"))
+	l.I(p+"exp", num("exp")).I(p+"iat", num("iat")).I(p+"auth", num("auth_time"))
+	l.S(p+"nonce", str("nonce")).S(p+"acr", str("acr")).S(p+"athash", symHash(str("at_hash")))
+	l.S(p+"chash", str("c_hash")).S(p+"client", str("client_id")).S(p+"sigalg", "")
 }
